@@ -237,6 +237,7 @@ fn generate(rng: &mut Rng) -> C14Sc {
             stop_at_ns: None,
             stop_before: false,
             yields_before_stop: 0,
+            relisten: false,
             cap_ns: 2 * secs(timeout_s) + secs(30),
         },
         roles,
